@@ -61,7 +61,10 @@ static void Probe_New(var self, var args) {
   struct Probe* p = self;
   if (p->token isnt 0) { inv("construct-on-nonzero-memory"); }
   probe_issue(p);
-  p->val = len(args) > 0 ? c_int(get(args, $I(0))) : 0;
+  if (len(args) > 0) {
+    var a = get(args, $I(0));
+    p->val = type_of(a) is Probe ? ((struct Probe*)a)->val : c_int(a);
+  }
 }
 static void Probe_Del(var self) {
   struct Probe* p = self;
@@ -173,6 +176,7 @@ static var arg(const char* a) {
     struct Blob v; memset(&v, 0, sizeof v); size_t n; unsigned char* d = keep(unhex(a + 2, &n));
     memcpy(v.b, d, n < 16 ? n : 16); return mk_stack(Blob, &v, sizeof v);
   }
+  if (a[0] is 'p' and a[1] is ':') { struct Probe v = { 0, strtoll(a + 2, NULL, 10), NULL }; return mk_stack(Probe, &v, sizeof v); }
   if (a[0] is 'r' and a[1] is ':') { struct Ref v = { arg(a + 2) }; return mk_stack(Ref, &v, sizeof v); }
   if (a[0] is 't' and a[1] is ':') { return type_by_name(a + 2); }
   if (a[0] is 'f' and a[1] is 'n' and a[2] is ':') {
@@ -236,8 +240,121 @@ static void repr(var v, int depth) {
   else { fprintf(o, "?%s", c_str(t)); }
 }
 
-/* ---- ops ---------------------------------------------------------------------------- */
 static int sgn(int c) { return c < 0 ? -1 : c > 0; }
+
+/* ---- white-box checks through the CELLO_VERIF accessors -------------------------------- */
+#ifdef CELLO_VERIF
+extern size_t Cello_Verif_Table_Slots(var self);
+extern bool Cello_Verif_Table_Slot(var self, size_t i, uint64_t* home, var* key, var* val);
+extern var Cello_Verif_Tree_Root(var self);
+extern void Cello_Verif_Tree_Node(var self, var node, var* left, var* right, var* parent, bool* red, var* key, var* val);
+extern size_t Cello_Verif_Array_Slots(var self);
+
+/* robin-hood invariants (DESIGN.md D.4) */
+static void table_check(var t) {
+  size_t ns = Cello_Verif_Table_Slots(t), occ = 0, maxd = 0, disp = 0, wrap = 0;
+  const char* bad = NULL;
+  for (size_t i = 0; i < ns and not bad; i++) {
+    uint64_t h, hp; var k, v, kp, vp;
+    Cello_Verif_Table_Slot(t, i, &h, &k, &v);
+    if (h is 0) { continue; }
+    occ++;
+    if (h - 1 isnt hash(k) % ns) { bad = "stored-home-mismatch"; break; }
+    if (type_of(k) isnt key_type(t) or type_of(v) isnt val_type(t)) { bad = "slot-type"; break; }
+    size_t d = (i + ns - (size_t)(h - 1)) % ns;
+    if (i < (size_t)(h - 1)) { wrap++; }
+    if (d > maxd) { maxd = d; }
+    if (d > 0) {
+      disp++;
+      size_t p = (i + ns - 1) % ns;
+      Cello_Verif_Table_Slot(t, p, &hp, &kp, &vp);
+      if (hp is 0) { bad = "gap-in-probe-chain"; break; }
+      size_t dp = (p + ns - (size_t)(hp - 1)) % ns;
+      if (dp + 1 < d) { bad = "probe-distance-order"; break; }
+    }
+    if (ns <= 600) {
+      for (size_t j = 0; j < i; j++) {
+        Cello_Verif_Table_Slot(t, j, &hp, &kp, &vp);
+        if (hp isnt 0 and eq(kp, k)) { bad = "duplicate-key"; break; }
+      }
+    }
+  }
+  if (not bad and occ isnt len(t)) { bad = "occupied-ne-len"; }
+  if (not bad and ns > 0 and occ >= ns) { bad = "no-empty-slot"; }
+  fprintf(o, "nslots=%zu occ=%zu maxd=%zu disp=%zu wrap=%zu bad=%s", ns, occ, maxd, disp, wrap, bad ? bad : "-");
+}
+
+static var rb_t; static const char* rb_bad; static size_t rb_count; static int rb_orient; static int rb_maxh;
+static int rb_walk(var node, var parent, var lo, var hi, int depth) {
+  /* returns black height; lo/hi are keys bounding this subtree in iteration orientation */
+  if (node is NULL) { return 1; }
+  if (depth > 200) { rb_bad = "too-deep-or-cyclic"; return 0; }
+  if (depth > rb_maxh) { rb_maxh = depth; }
+  var l, r, p, k, v; bool red;
+  Cello_Verif_Tree_Node(rb_t, node, &l, &r, &p, &red, &k, &v);
+  rb_count++;
+  if (p isnt parent) { rb_bad = "parent-link"; return 0; }
+  if (type_of(k) isnt key_type(rb_t) or type_of(v) isnt val_type(rb_t)) { rb_bad = "node-type"; return 0; }
+  if (lo and sgn(cmp(lo, k)) isnt rb_orient) { rb_bad = "bst-order"; return 0; }
+  if (hi and sgn(cmp(k, hi)) isnt rb_orient) { rb_bad = "bst-order"; return 0; }
+  if (red) {
+    var l2, r2, p2, k2, v2; bool red2;
+    if (l) { Cello_Verif_Tree_Node(rb_t, l, &l2, &r2, &p2, &red2, &k2, &v2); if (red2) { rb_bad = "red-red"; return 0; } }
+    if (r) { Cello_Verif_Tree_Node(rb_t, r, &l2, &r2, &p2, &red2, &k2, &v2); if (red2) { rb_bad = "red-red"; return 0; } }
+  }
+  int bl = rb_walk(l, node, lo, k, depth + 1); if (rb_bad) { return 0; }
+  int br = rb_walk(r, node, k, hi, depth + 1); if (rb_bad) { return 0; }
+  if (bl isnt br) { rb_bad = "black-height"; return 0; }
+  return bl + (red ? 0 : 1);
+}
+static void tree_check(var t) {
+  rb_t = t; rb_bad = NULL; rb_count = 0; rb_maxh = 0; rb_orient = -1;
+  var root = Cello_Verif_Tree_Root(t);
+  int bh = 0;
+  if (root) {
+    var l, r, p, k, v; bool red;
+    Cello_Verif_Tree_Node(t, root, &l, &r, &p, &red, &k, &v);
+    if (red) { rb_bad = "root-red"; }
+    /* orientation: which side holds the smaller keys (either is fine, must be uniform) */
+    var c = l ? l : r;
+    if (c) {
+      var l2, r2, p2, k2, v2; bool red2;
+      Cello_Verif_Tree_Node(t, c, &l2, &r2, &p2, &red2, &k2, &v2);
+      int s = sgn(cmp(k2, k));
+      rb_orient = l ? s : -s;
+      if (rb_orient is 0) { rb_bad = "equal-keys"; }
+    }
+    if (not rb_bad) { bh = rb_walk(root, NULL, NULL, NULL, 1); }
+  }
+  if (not rb_bad and rb_count isnt len(t)) { rb_bad = "count-ne-len"; }
+  /* height <= 2*log2(n+1) */
+  if (not rb_bad) { size_t n = rb_count + 1; int lg = 0; while (((size_t)1 << lg) < n) { lg++; } if (rb_maxh > 2 * lg) { rb_bad = "too-high"; } }
+  fprintf(o, "n=%zu height=%d bh=%d orient=%d bad=%s", rb_count, rb_maxh, bh, rb_orient, rb_bad ? rb_bad : "-");
+}
+/* number of children of the node holding key k (-1 if absent) */
+static int tree_children(var t, var key) {
+  var node = Cello_Verif_Tree_Root(t);
+  int guard = 0;
+  while (node and guard++ < 300) {
+    var l, r, p, k, v; bool red;
+    Cello_Verif_Tree_Node(t, node, &l, &r, &p, &red, &k, &v);
+    if (eq(k, key)) { return (l ? 1 : 0) + (r ? 1 : 0); }
+    /* try both directions by orientation-free search: compare and follow the library's own convention */
+    int c = cmp(k, key);
+    var l2, r2, p2, k2, v2; bool red2;
+    /* decide side: if left exists compare its key with node key to learn orientation */
+    int orient = 0;
+    if (l) { Cello_Verif_Tree_Node(t, l, &l2, &r2, &p2, &red2, &k2, &v2); orient = sgn(cmp(k2, k)); }
+    else if (r) { Cello_Verif_Tree_Node(t, r, &l2, &r2, &p2, &red2, &k2, &v2); orient = -sgn(cmp(k2, k)); }
+    else { return -1; }
+    /* orient = sign of (left key vs node key); key belongs left iff sign(key vs node) == orient */
+    node = (sgn(-c) is orient) ? l : r;
+  }
+  return -1;
+}
+#endif
+
+/* ---- ops ---------------------------------------------------------------------------- */
 
 static void do_op(char** w, int n) {
   const char* op = w[0];
@@ -263,6 +380,22 @@ static void do_op(char** w, int n) {
     var r = get(arg(w[1]), arg(w[2]));
     if (n > 3) { S[slotno(w[3])] = r; }
     repr(r, 0);
+  }
+  else if (OP("findkey")) {               /* findkey c K d : pointer to the element of c equal to K */
+    var c = arg(w[1]), k = arg(w[2]); var found = NULL; size_t guard = 0;
+    for (var it = iter_init(c); it isnt Terminal and guard++ < 100000; it = iter_next(c, it)) {
+      if (eq(it, k)) { found = it; break; }
+    }
+    S[slotno(w[3])] = found; fputs(found ? "found" : "absent", o);
+  }
+  else if (OP("mems")) { var c = arg(w[1]); for (int i = 2; i < n; i++) { fputc(mem(c, arg(w[i])) ? '1' : '0', o); } }
+  else if (OP("getsk")) {                 /* get for each key that mem reports present, '!' otherwise */
+    var c = arg(w[1]);
+    for (int i = 2; i < n; i++) {
+      if (i > 2) { fputc(',', o); }
+      var k = arg(w[i]);
+      if (mem(c, k)) { repr(get(c, k), 0); } else { fputc('!', o); }
+    }
   }
   else if (OP("mem")) { fprintf(o, "%d", (int)mem(arg(w[1]), arg(w[2]))); }
   else if (OP("rem")) { rem(arg(w[1]), arg(w[2])); }
@@ -358,12 +491,40 @@ static void do_op(char** w, int n) {
     }
     fputc(']', o);
   }
-  else if (OP("live")) { fprintf(o, "live=%" PRId64 " inv=%s", live_count, inv_msg[0] ? inv_msg : "-"); }
+  else if (OP("live")) { fprintf(o, "live=%" PRId64 " ledger=%s", live_count, inv_msg[0] ? inv_msg : "-"); }
   else if (OP("pmode")) { probe_mode = atoi(w[1]); }
   else if (OP("collect")) {
 #ifndef CELLO_NGC
     extern void GC_Mark(var); extern void GC_Sweep(var);
     GC_Mark(current(GC)); GC_Sweep(current(GC));
+#endif
+  }
+  else if (OP("tchk")) {
+#ifdef CELLO_VERIF
+    table_check(arg(w[1]));
+#else
+    fputs("nohook", o);
+#endif
+  }
+  else if (OP("rbchk")) {
+#ifdef CELLO_VERIF
+    tree_check(arg(w[1]));
+#else
+    fputs("nohook", o);
+#endif
+  }
+  else if (OP("rbkids")) {
+#ifdef CELLO_VERIF
+    fprintf(o, "%d", tree_children(arg(w[1]), arg(w[2])));
+#else
+    fputs("nohook", o);
+#endif
+  }
+  else if (OP("cap")) {
+#ifdef CELLO_VERIF
+    fprintf(o, "%zu", Cello_Verif_Array_Slots(arg(w[1])));
+#else
+    fputs("nohook", o);
 #endif
   }
   else { harness_bug("unknown op"); }
